@@ -119,6 +119,7 @@ class Prop(PropBase):
             for s_, a_ in zip(storm, ans):
                 exp = flat(a_)
                 p = subprocess.Popen([child], stdin=subprocess.PIPE, stdout=subprocess.PIPE, stderr=subprocess.PIPE, env=env2)
+                ready = p.stderr.readline()        # the child reports that its SIGUSR1 handler is installed
                 p.stdin.write((s_[1:].strip() + "\n").encode())
                 p.stdin.close()
                 _t.sleep(0.4)                      # the child parses the script and blocks with the pipe full
